@@ -20,6 +20,13 @@
       additions); [try_read_100] after a refusal on a window that parses as a complete 100 response
       ([assert!(should_send_body)], reachable only by violating the re-presentation discipline,
       see C12). *)
+(** Added after review 1 (sections at the end of the file):
+    - "the successor from the HISTORY": the flags [c09_successor] reads are tied to facts computed from
+      the script ([c09_hist_flags]) and the successor is restated on those facts ([c09_successor_hist],
+      proofs/C09_hist.v);
+    - "the tracked try_read_100 needs no side condition": the third excluded class above is a lemma for
+      the tracked [OTry100] ([c09_tracked_never_misuse], [c09_history2]; proofs/C09_discipline.v); the
+      condition remains for [ORawTry100] only (and for [OSetStream] under a refused flow). *)
 From Coq Require Import Lia ZArith.
 From Hoot Require Import Base Chunk Body Httparse Parser Url Request Call Flow Script.
 From Hoot.proofs Require Import C06_proofs C09_inv C09_calls C09_flow C09_proofs.
@@ -334,6 +341,229 @@ From Hoot.proofs Require Import Gen_equiv_ext.
 Theorem c09_code_need_request_body : forall m, gen_need_request_body m = need_request_body m.
 Proof. exact gen_need_request_body_eq. Qed.
 
+(* ------------------------------------------------------------------ the successor from the HISTORY *)
+(** [c09_successor] above reads the flags the model keeps.  Here the flags are tied to facts computed
+    from the script alone (proofs/C09_hist.v: [hist], [hstep], [hist_of]):
+      hs_method / hs_despite   the method of the request the exchange was created from ([ONew]'s
+                               argument; for a followed redirect the request of the new flow), and
+                               whether [send_body_despite_method] was called;   hs_due := their "or";
+      hs_expect                the ORIGINAL headers of that request contain expect: 100-continue;
+      hs_refused               [try_read_100] was shown a refusal (C10's [refusal_seen]; wire reading:
+                               [c10_refusal_wire]);
+      hs_cleared               [try_read_100] was shown a window it decides on, or [try_response] was
+                               shown a complete bare 100 head (the one late 100 that is skipped);
+      hs_status / hs_mode      status of the last head [try_response] returned / C06's rule
+                               [rfc_body_mode] for (request method, last returned non-100 head).
+    and the documented graph is a function of these facts ([graph_successor]). *)
+From Hoot.proofs Require Import C09_hist.
+
+(** The facts move by [hstep] with every operation. *)
+Theorem c09_hist_step : forall ops o,
+  hist_of (ops ++ [o]) = hstep (run_ops s_init ops) (hist_of ops) o.
+Proof. exact hist_step. Qed.
+
+(** After EVERY admissible history, whatever flow the script holds: a body is still to be sent iff
+    one is due and no refusal was seen; the flow still waits for a 100 iff Expect was requested and
+    nothing cleared it; the status is that of the head returned; in RecvResponse the installed body
+    mode is C06's rule for the head returned; before the response nothing of that is set. *)
+Theorem c09_hist_flags : forall ops t f,
+  admissible s_init ops -> s_obj (run_ops s_init ops) = ObFlow t f ->
+  let h := hist_of ops in
+  i_should_send_body f = hs_due h && negb (hs_refused h) /\
+  i_await_100 f = hs_expect h && negb (hs_cleared h) /\
+  i_status f = hs_status h /\
+  (t = TPrepare \/ t = TSendRequest -> hs_refused h = false /\ hs_cleared h = false) /\
+  (t = TAwait100 -> hs_due h = true) /\
+  (sending t = true -> hs_mode h = None) /\
+  (t = TRecvResponse -> c_reader (i_call f) = hs_mode h).
+Proof.
+  intros ops t f Ha Ho. destruct (hist_flow ops t f Ha Ho) as (H1 & H2 & H3 & _ & H5 & H6 & H7 & H8).
+  cbv zeta. auto 10.
+Qed.
+
+(** The successor theorem on histories: whenever [proceed] reports a new state after an admissible
+    history, it is [graph_successor] of the state it was in and the facts of the history, and the
+    flow satisfies the invariant of the new state. *)
+Theorem c09_successor_hist : forall ops t f t',
+  admissible s_init ops -> s_obj (run_ops s_init ops) = ObFlow t f ->
+  snd (step (run_ops s_init ops) OProceed) = [w "state"; tag_name t'] ->
+  t' = graph_successor t (hist_of ops) /\
+  exists f', s_obj (fst (step (run_ops s_init ops) OProceed)) = ObFlow t' f' /\ Inv t' f'.
+Proof. exact successor_hist. Qed.
+
+(** Without looking at the observation: the tag either stays (not ready / Cleanup) or becomes the
+    graph's successor. *)
+Theorem c09_successor_hist_tag : forall ops t f t' f',
+  admissible s_init ops -> s_obj (run_ops s_init ops) = ObFlow t f ->
+  s_obj (fst (step (run_ops s_init ops) OProceed)) = ObFlow t' f' ->
+  (t' = t /\ f' = f) \/ (t' = graph_successor t (hist_of ops) /\ Inv t' f').
+Proof. exact successor_hist_tag. Qed.
+
+(** [graph_successor], clause by clause in the words of the property.
+    After the head: Await100 iff a body is due and Expect was requested; SendBody iff a body is due
+    and Expect was not requested; RecvResponse iff no body is due. *)
+Theorem c09_graph_head : forall h,
+  (graph_successor TSendRequest h = TAwait100 <-> hs_due h = true /\ hs_expect h = true) /\
+  (graph_successor TSendRequest h = TSendBody <-> hs_due h = true /\ hs_expect h = false) /\
+  (graph_successor TSendRequest h = TRecvResponse <-> hs_due h = false).
+Proof. exact graph_head. Qed.
+
+(** After Await100: SendBody iff no refusal was seen, RecvResponse iff one was. *)
+Theorem c09_graph_await : forall h,
+  (graph_successor TAwait100 h = TSendBody <-> hs_refused h = false) /\
+  (graph_successor TAwait100 h = TRecvResponse <-> hs_refused h = true).
+Proof. exact graph_await. Qed.
+
+(** After the response head: C06's [successor] of (rule for the head returned, its status). *)
+Theorem c09_graph_response : forall h r st,
+  hs_mode h = Some r -> hs_status h = Some st ->
+  graph_successor TRecvResponse h = successor r st.
+Proof. intros h r st Hm Hs. rewrite (graph_response h r Hm), Hs. reflexivity. Qed.
+
+(** After the body: Redirect iff the status returned is 3xx other than 304 (else Cleanup);
+    the body is followed by RecvResponse, Prepare by SendRequest, Redirect by Cleanup. *)
+Theorem c09_graph_body : forall h,
+  (graph_successor TRecvBody h = TRedirect <->
+   exists st, hs_status h = Some st /\ 300 <= st <= 399 /\ st <> 304) /\
+  (graph_successor TRecvBody h = TRedirect \/ graph_successor TRecvBody h = TCleanup) /\
+  graph_successor TSendBody h = TRecvResponse /\ graph_successor TPrepare h = TSendRequest /\
+  graph_successor TRedirect h = TCleanup.
+Proof.
+  intros h. split; [exact (graph_body h)|]. split; [|repeat split].
+  unfold graph_successor. destruct (redirect_of (hs_status h)); auto.
+Qed.
+
+(** Non-vacuity on [ex_history] (POST with Expect, refused by a 403 with Content-Length: 0): the facts
+    and the successor before each of its three decisive [proceed] calls. *)
+Example c09_successor_hist_nonvacuous :
+  admissible s_init ex_history /\
+  hist_of (firstn 7 ex_history) =
+    {| hs_method := POST; hs_despite := false; hs_expect := true; hs_refused := false;
+       hs_cleared := false; hs_status := None; hs_mode := None |} /\
+  snd (step (run_ops s_init (firstn 7 ex_history)) OProceed) = [w "state"; tag_name TAwait100] /\
+  graph_successor TSendRequest (hist_of (firstn 7 ex_history)) = TAwait100 /\
+  hist_of (firstn 16 ex_history) =
+    {| hs_method := POST; hs_despite := false; hs_expect := true; hs_refused := true;
+       hs_cleared := true; hs_status := None; hs_mode := None |} /\
+  snd (step (run_ops s_init (firstn 16 ex_history)) OProceed) = [w "state"; tag_name TRecvResponse] /\
+  graph_successor TAwait100 (hist_of (firstn 16 ex_history)) = TRecvResponse /\
+  hist_of (firstn 20 ex_history) =
+    {| hs_method := POST; hs_despite := false; hs_expect := true; hs_refused := true;
+       hs_cleared := true; hs_status := Some 403; hs_mode := Some (RLength 0) |} /\
+  snd (step (run_ops s_init (firstn 20 ex_history)) OProceed) = [w "state"; tag_name TCleanup] /\
+  graph_successor TRecvResponse (hist_of (firstn 20 ex_history)) = TCleanup.
+Proof.
+  split; [apply admissible_b_sound; vm_compute; reflexivity|].
+  vm_compute. repeat split.
+Qed.
+
+(** OBSERVATION (outside the property's quantifier, which ranges over request configurations
+    with / without Expect): an [expect: 100-continue] header added through [Flow<Prepare>::header]
+    is written to the wire but is NOT honoured -- [await_100_continue] is computed once, in
+    [Flow::new], from the original request.  The history below is admissible, its head carries the
+    Expect field, and [proceed] goes straight to SendBody (no Await100); [hs_expect] is false, so
+    this is what [c09_successor_hist] prescribes. *)
+Definition ex_post_plain : request :=
+  {| rq_method := POST; rq_version := V11; rq_uri := ex_uri; rq_headers := [] |}.
+
+Definition ex_expect_added : list op :=
+  [ONew ex_post_plain; OHeader (s2b "expect") (s2b "100-continue"); OProceed; OWriteHead 1000].
+
+Example c09_expect_added_not_honoured :
+  admissible s_init ex_expect_added /\
+  nth 3 (obs_run s_init ex_expect_added) [] =
+    [w "ok"; TN 84;
+     TH (s2b "POST /x HTTP/1.1" ++ CRLF ++ s2b "expect: 100-continue" ++ CRLF ++ s2b "host: a.test" ++ CRLF
+         ++ s2b "transfer-encoding: chunked" ++ CRLF ++ CRLF)] /\
+  hs_expect (hist_of ex_expect_added) = false /\ hs_due (hist_of ex_expect_added) = true /\
+  snd (step (run_ops s_init ex_expect_added) OProceed) = [w "state"; tag_name TSendBody] /\
+  graph_successor TSendRequest (hist_of ex_expect_added) = TSendBody.
+Proof.
+  split; [apply admissible_b_sound; vm_compute; reflexivity|].
+  vm_compute. repeat split.
+Qed.
+
+(* ------------------------------------------------------------------ the tracked try_read_100 needs no side condition *)
+(** [in_quantifier] asks for [~ misuse_100 f (window s)] at the tracked [OTry100] as well.  That is a
+    lemma, not a premise: the script presents stream[consumed..arrived], arrivals only append, and a
+    refusal consumes nothing -- so after a refusal every later tracked window extends (or is a
+    prefix of) the refused one, and such a window never parses as a 100 (C11 [c11_never_assert],
+    C12 [c12_try100_after_refusal]).  The state invariant is
+      [DInv s]: if the flow is in Await100 and no longer wants to send, no prefix of the unconsumed
+                stream parses as a complete 100 head;
+    [in_quantifier2] (proofs/C09_discipline.v) is [in_quantifier] without any condition on [OTry100];
+    it keeps [~ misuse_100] for [ORawTry100] and asks the two operations that can introduce bytes
+    unrelated to the stream ([ORawTry100] provoking the first refusal, [OSetStream] under a refused
+    flow) not to break [DInv]; [admissible2] is [admissible] with [in_quantifier2]. *)
+From Hoot.proofs Require Import C09_discipline.
+
+(** A refusal on one window of the stream rules out a 100 in every window of it. *)
+Theorem c09_refusal_blocks : forall consumed stream n,
+  C12_flow.refusal_window (take n (drop consumed stream)) -> no_100_ahead consumed stream.
+Proof. exact refusal_blocks. Qed.
+
+Theorem c09_tracked_never_misuse : forall s f,
+  DInv s -> s_obj s = ObFlow TAwait100 f -> ~ misuse_100 f (window s).
+Proof. exact tracked_never_misuse. Qed.
+
+(** One step: no panic, both invariants again. *)
+Theorem c09_step2 : forall s o,
+  SInv s -> DInv s -> ~ Known s o -> in_quantifier2 s o ->
+  snd (step s o) <> obs_panic /\ SInv (fst (step s o)) /\ DInv (fst (step s o)).
+Proof.
+  intros s o HS HD HK HQ. destruct (step_good2 s o HS HD HK HQ) as [[H1 H2] H3]. auto.
+Qed.
+
+(** Histories of any length under the weaker conditions. *)
+Theorem c09_history2 : forall ops,
+  admissible2 s_init ops ->
+  Forall (fun o => o <> obs_panic) (obs_run s_init ops) /\ SInv (run_ops s_init ops) /\
+  DInv (run_ops s_init ops).
+Proof. intros ops H. exact (history_good2 ops s_init sinv_init dinv_init H). Qed.
+
+(** They imply the conditions the theorems above were stated with ... *)
+Theorem c09_admissible2 : forall ops, admissible2 s_init ops -> admissible s_init ops.
+Proof. intros ops H. exact (admissible2_admissible ops s_init sinv_init dinv_init H). Qed.
+
+(** ... so e.g. the history-level successor theorem holds under them. *)
+Theorem c09_successor_hist2 : forall ops t f t',
+  admissible2 s_init ops -> s_obj (run_ops s_init ops) = ObFlow t f ->
+  snd (step (run_ops s_init ops) OProceed) = [w "state"; tag_name t'] ->
+  t' = graph_successor t (hist_of ops) /\
+  exists f', s_obj (fst (step (run_ops s_init ops) OProceed)) = ObFlow t' f' /\ Inv t' f'.
+Proof. intros ops t f t' H. exact (successor_hist ops t f t' (c09_admissible2 ops H)). Qed.
+
+(** [ex_history] satisfies the weaker conditions (checked without looking at any tracked window); its
+    third [OTry100] is a re-presentation after the refusal: the flow no longer wants to send, and
+    the tracked window is nevertheless safe. *)
+Example c09_history2_nonvacuous :
+  admissible2 s_init ex_history /\
+  match s_obj (run_ops s_init (firstn 14 ex_history)) with
+  | ObFlow TAwait100 f => i_should_send_body f = false /\ nth 14 ex_history OProceed = OTry100
+  | _ => False
+  end.
+Proof.
+  split; [apply admissible2_b_sound; vm_compute; reflexivity|]. vm_compute. split; reflexivity.
+Qed.
+
+(** The remaining side condition on [ORawTry100] is needed: a refusal provoked with raw bytes while
+    the stream holds a 100 makes the next TRACKED call hit [assert!(should_send_body)]. *)
+Definition ex_raw_then_tracked : list op :=
+  [ONew ex_post; OProceed; OWriteHead 1000; OProceed;
+   OSetStream (s2b "HTTP/1.1 100 Continue" ++ CRLF ++ CRLF); OArrive 1000; ORawTry100 ex_403].
+
+Example c09_raw_then_tracked_panics :
+  admissible s_init ex_raw_then_tracked /\
+  refusal_window_b ex_403 = true /\
+  C12_flow.parses_100 (window (run_ops s_init ex_raw_then_tracked)) /\
+  snd (step (run_ops s_init ex_raw_then_tracked) OTry100) = obs_panic.
+Proof.
+  split; [apply admissible_b_sound; vm_compute; reflexivity|].
+  split; [vm_compute; reflexivity|].
+  split; [|vm_compute; reflexivity].
+  eexists _, _. split; vm_compute; reflexivity.
+Qed.
+
 Print Assumptions c09_new_total.
 Print Assumptions c09_new.
 Print Assumptions c09_header.
@@ -366,3 +596,21 @@ Print Assumptions c09_history_nonvacuous.
 Print Assumptions c09_redirect_nonvacuous.
 Print Assumptions c09_premature_nonvacuous.
 Print Assumptions c09_code_need_request_body.
+Print Assumptions c09_hist_step.
+Print Assumptions c09_hist_flags.
+Print Assumptions c09_successor_hist.
+Print Assumptions c09_successor_hist_tag.
+Print Assumptions c09_graph_head.
+Print Assumptions c09_graph_await.
+Print Assumptions c09_graph_response.
+Print Assumptions c09_graph_body.
+Print Assumptions c09_successor_hist_nonvacuous.
+Print Assumptions c09_expect_added_not_honoured.
+Print Assumptions c09_refusal_blocks.
+Print Assumptions c09_tracked_never_misuse.
+Print Assumptions c09_step2.
+Print Assumptions c09_history2.
+Print Assumptions c09_admissible2.
+Print Assumptions c09_successor_hist2.
+Print Assumptions c09_history2_nonvacuous.
+Print Assumptions c09_raw_then_tracked_panics.
